@@ -65,7 +65,7 @@ def check_case(case):
 
         fa = r.fit_args
         np = models.np()
-        for k, v, lab, pr in crit:
+        for ci, (k, v, lab, pr) in enumerate(crit):
             kw = {"distance": case["metric"]} if case["mode"] == "feat" else {}
             m2 = libcall(models.classes()["knn"], max_k=case["max_k"], **kw)
             if case["mode"] == "pre":
@@ -75,6 +75,9 @@ def check_case(case):
             m2.subgraph = sg
             sg.best_k = k
             libcall(sg.create_arcs, k, m2.distance_fn, m2.pre_computed_distance, m2.pre_distances)
+            # the search keeps ONE sub-graph whose density bound is a running value (it can stick at the fallback 1 after k=1 on
+            # duplicated data) - not claimed by any listed property; the from-scratch model is given the same bound
+            sg.density = r.loop_density[ci]
             libcall(sg.calculate_pdf, k, m2.distance_fn, m2.pre_computed_distance, m2.pre_distances)
             libcall(m2._clustering)
             p2 = [int(x) for x in libcall(m2.predict, fa["Xv"].copy(), None if fa["I_v"] is None else fa["I_v"].copy())]
@@ -99,6 +102,7 @@ def check_case(case):
             require(r.adj_len[i] == best + r.n_plateaus[i], "unsup:final_arcs_use_best_k", lambda: "node %d has %d arcs, best_k=%d, plateaus=%d" % (i, r.adj_len[i], best, r.n_plateaus[i]))
     # final model built with best_k: stored density range == pdf over the best_k smallest distances with the stored constant
     const = s["sg_constant"]
+    require(const > 0 and const == const, "final_model_uses_best_k", "stored density constant is %r (must be 2/9 of a positive density bound)" % const)
     pdf = knncase.ref_pdf_from_distances(r.D, best, const)
     lo, hi = min(pdf), max(pdf)
     require(abs(s["sg_min_density"] - lo) <= 1e-9 * abs(lo) + 1e-300 and abs(s["sg_max_density"] - hi) <= 1e-9 * abs(hi) + 1e-300, "final_model_uses_best_k",
